@@ -43,7 +43,9 @@ def seeded():
         if len(summ) > 230: summ = summ[:227] + '...'
         needs = ' '.join(str(meta.get('needs_to_manifest', '')).split())
         if len(needs) > 200: needs = needs[:197] + '...'
-        if not res:
+        if meta.get('superseded'):
+            verdict = 'superseded: ' + meta['superseded']
+        elif not res:
             verdict = 'not run yet (check not registered)'
         elif not res.get('valid_seed'):
             verdict = 'seed rejected (demo clean %s / patched %s, tests same %s)' % (
